@@ -13,6 +13,8 @@ def configs(tier, rng):
         kind = S.KINDS[j % 3]
         cfg = S.base_cfg(rng, kind)
         cfg["opt"] = S.OPTS[(j // 3) % 4]
+        if j % 4 == 1:
+            cfg["param_gen"] = True; cfg["obs_gen"] = True        # both auxiliary generators at once
         if j % 5 == 4:
             cfg["resume"] = rng.randint(1, 4)
         if j % 7 == 3:
